@@ -220,3 +220,78 @@ package eval
 //@   (declare-const a (Array Int Int)) (declare-const b (Array Int Int))
 //@   (declare-const ao Int) (declare-const an Int) (declare-const bo Int) (declare-const bn Int)
 //@   (assert (not (= (overlaps a ao an b bo bn) (overlaps b bo bn a ao an))))
+
+// ---------------------------------------------------------------------------
+// C19 — version and date encodings.  modes: date=18 datetime=19 toTime=20
+// toDate=21 toDefaultTime=22 toDefaultDate=23 version=24 toVersion=25.
+// strings.Split / strconv.ParseInt / time.Parse are stubs (DESIGN 2.2):
+// splitLen/splitArr, parseIntOk/parseIntVal, parseTimeOk/parseUnix.
+
+//@ ghost (define-fun verComp ((s Int) (i Int)) Int (parseIntVal (select (splitArr s ".") i)))
+//@ ghost (define-fun verCompOK ((s Int) (i Int)) Bool (and (parseIntOk (select (splitArr s ".") i)) (< (verComp s i) 10000)))
+//@ ghost (define-fun-rec verFold ((s Int) (k Int)) Int
+//@   (ite (<= k 0) 0
+//@     (let ((p (verFold s (- k 1))))
+//@       (ite (< (- k 1) (splitLen s ".")) (wrapS64 (+ (wrapS64 (* p 10000)) (verComp s (- k 1)))) (wrapS64 (* p 10000))))))
+//@ ghost (define-fun verAllOK ((s Int) (n Int)) Bool
+//@   (forall ((i Int)) (! (=> (and (<= 0 i) (< i n) (< i (splitLen s "."))) (verCompOK s i)) :pattern ((select (splitArr s ".") i)))))
+
+//@ func versionConvert.execute C19 C06
+//@   requires [recv] (and (<= 24 (fld $c mode)) (<= (fld $c mode) 25) (<= 1 (fld $c validLen)) (<= (fld $c validLen) 4))
+//@   ensures [arity] (=> (not (or (= (len $params) 1) (= (len $params) 2))) (not (= $ret1 ENil)))
+//@   ensures [validlen-checked] (=> (and (= (len $params) 2) (not (and (is.int64 (idx $params 1)) (<= 1 (p_int64 (idx $params 1))) (<= (p_int64 (idx $params 1)) 4)))) (not (= $ret1 ENil)))
+//@   ensures [string-checked] (=> (and (>= (len $params) 1) (not (is.string (idx $params 0)))) (not (= $ret1 ENil)))
+//@   ensures [ok-iff] (=> (and (or (= (len $params) 1) (and (= (len $params) 2) (is.int64 (idx $params 1)) (<= 1 (p_int64 (idx $params 1))) (<= (p_int64 (idx $params 1)) 4))) (is.string (idx $params 0)))
+//@      (let ((n (ite (= (len $params) 1) (fld $c validLen) (p_int64 (idx $params 1)))) (s (p_string (idx $params 0))))
+//@        (and (= (= $ret1 ENil) (verAllOK s n))
+//@             (=> (= $ret1 ENil) (= $ret0 (V_int64 (verFold s n)))))))
+//@   loop 1 (i)
+//@     invariant [range] (and (<= 0 $i) (<= $i $validLen) (<= 1 $validLen) (<= $validLen 4))
+//@     invariant [fold-prefix] (= $res (verFold $s $i))
+//@     invariant [ok-prefix] (verAllOK $s $i)
+//@     invariant [split] (and (= (len $arr) (splitLen $s ".")) (= (off $arr) 0) (= (arr $arr) (splitArr $s ".")))
+//@     decreases (- $validLen $i)
+
+//@ lemma version-order C19
+//@   ; for components in 0..9999 and N in 1..4 the wrapped fold equals the base-10000 polynomial (no overflow),
+//@   ; and comparing encodings is comparing component vectors lexicographically (missing components are 0 by construction of verFold)
+//@   (declare-const c0 Int) (declare-const c1 Int) (declare-const c2 Int) (declare-const c3 Int)
+//@   (declare-const d0 Int) (declare-const d1 Int) (declare-const d2 Int) (declare-const d3 Int)
+//@   (assert (and (<= 0 c0 9999) (<= 0 c1 9999) (<= 0 c2 9999) (<= 0 c3 9999) (<= 0 d0 9999) (<= 0 d1 9999) (<= 0 d2 9999) (<= 0 d3 9999)))
+//@   (define-fun stp ((p Int) (v Int)) Int (wrapS64 (+ (wrapS64 (* p 10000)) v)))
+//@   (define-fun e1 ((a Int)) Int (stp 0 a))
+//@   (define-fun e2 ((a Int) (b Int)) Int (stp (e1 a) b))
+//@   (define-fun e3 ((a Int) (b Int) (c Int)) Int (stp (e2 a b) c))
+//@   (define-fun e4 ((a Int) (b Int) (c Int) (d Int)) Int (stp (e3 a b c) d))
+//@   (define-fun lex2 ((a Int) (b Int) (x Int) (y Int)) Bool (or (< a x) (and (= a x) (< b y))))
+//@   (define-fun lex3 ((a Int) (b Int) (c Int) (x Int) (y Int) (z Int)) Bool (or (< a x) (and (= a x) (lex2 b c y z))))
+//@   (define-fun lex4 ((a Int) (b Int) (c Int) (d Int) (x Int) (y Int) (z Int) (w Int)) Bool (or (< a x) (and (= a x) (lex3 b c d y z w))))
+//@   (assert (not (and
+//@     (= (e4 c0 c1 c2 c3) (+ (* c0 1000000000000) (* c1 100000000) (* c2 10000) c3))
+//@     (= (< (e1 c0) (e1 d0)) (< c0 d0)) (= (= (e1 c0) (e1 d0)) (= c0 d0))
+//@     (= (< (e2 c0 c1) (e2 d0 d1)) (lex2 c0 c1 d0 d1)) (= (= (e2 c0 c1) (e2 d0 d1)) (and (= c0 d0) (= c1 d1)))
+//@     (= (< (e3 c0 c1 c2) (e3 d0 d1 d2)) (lex3 c0 c1 c2 d0 d1 d2)) (= (= (e3 c0 c1 c2) (e3 d0 d1 d2)) (and (= c0 d0) (= c1 d1) (= c2 d2)))
+//@     (= (< (e4 c0 c1 c2 c3) (e4 d0 d1 d2 d3)) (lex4 c0 c1 c2 c3 d0 d1 d2 d3)) (= (= (e4 c0 c1 c2 c3) (e4 d0 d1 d2 d3)) (and (= c0 d0) (= c1 d1) (= c2 d2) (= c3 d3))))))
+//@ lemma version-fold-unfolds C19
+//@   ; verFold on a version string with L components, N = 4: the explicit four-step fold with missing components read as 0
+//@   (declare-const s Int)
+//@   (define-fun stp ((p Int) (v Int)) Int (wrapS64 (+ (wrapS64 (* p 10000)) v)))
+//@   (define-fun cz ((i Int)) Int (ite (< i (splitLen s ".")) (verComp s i) 0))
+//@   (assert (>= (splitLen s ".") 1))
+//@   (assert (forall ((i Int)) (=> (and (<= 0 i) (< i 4)) (and (<= 0 (cz i)) (<= (cz i) 9999)))))
+//@   (assert (not (and (= (verFold s 1) (stp 0 (cz 0))) (= (verFold s 2) (stp (stp 0 (cz 0)) (cz 1)))
+//@                     (= (verFold s 3) (stp (stp (stp 0 (cz 0)) (cz 1)) (cz 2)))
+//@                     (= (verFold s 4) (stp (stp (stp (stp 0 (cz 0)) (cz 1)) (cz 2)) (cz 3))))))
+
+//@ ghost (define-fun timeArityOK ((m Int) (n Int)) Bool
+//@   (ite (<= m 19) (or (= n 1) (= n 2)) (ite (<= m 21) (= n 2) (= n 1))))
+
+//@ func timeConvert.execute C19 C06
+//@   requires [mode] (and (<= 18 (fld $c mode)) (<= (fld $c mode) 23))
+//@   ensures [arity] (=> (not (timeArityOK (fld $c mode) (len $params))) (not (= $ret1 ENil)))
+//@   ensures [layout-type] (=> (and (= (len $params) 2) (not (is.string (idx $params 1)))) (not (= $ret1 ENil)))
+//@   ensures [value-type] (=> (and (>= (len $params) 1) (not (is.string (idx $params 0)))) (not (= $ret1 ENil)))
+//@   ensures [ok-iff] (=> (and (timeArityOK (fld $c mode) (len $params)) (is.string (idx $params 0)) (=> (= (len $params) 2) (is.string (idx $params 1))))
+//@      (let ((layout (ite (= (len $params) 2) (p_string (idx $params 1)) (fld $c layout))) (v (p_string (idx $params 0))))
+//@        (and (= (= $ret1 ENil) (parseTimeOk layout v))
+//@             (=> (= $ret1 ENil) (= $ret0 (V_int64 (parseUnix layout v)))))))
